@@ -346,7 +346,25 @@ class C20(Base):
         lines2, toks = scen.base_setup()
         lines2.append("deposit %s %s %d" % (hx(POOL), hx("uother"), 10 ** 30))
         lines2 += pause_targeted(toks)
-        f2 = {"msg": ["res", "st"], "recv": ["ack"], "recvh": ["ack"], "query": ["res", "out", "next", "total"]}
+        # a warp token with a single route: the identifier a transfer is matched and recorded under is the one its payload carries, and a
+        # payload that names no domain (or domain 0) reaches no destination
+        t3 = toks[0][0][:-8] + (2).to_bytes(8, "big")
+        lines2 += ["env hyp setup " + hx("uusdc"), "env hyp token %s %s" % (hx(t3), hx("uusdc")), "env hyp enroll %s 7 0" % hx(t3),
+                   msg_line("PauseCrossChains", AUTHORITY, hx("PROTOCOL_HYPERLANE"), hx("7"))]
+        for dom in (7, 0, None):
+            fw = hyp_fwd(t3, domain=dom if dom is not None else 0)
+            if dom is None:
+                del fw["attributes"]["destination_domain"]
+            lines2.append(orb_pkt("recv", 10 ** 6, fw, None))
+        lines2.append(msg_line("UnpauseCrossChains", AUTHORITY, hx("PROTOCOL_HYPERLANE"), hx("7")))
+        for dom in (7, 0, None):
+            fw = hyp_fwd(t3, domain=dom if dom is not None else 0)
+            if dom is None:
+                del fw["attributes"]["destination_domain"]
+            lines2.append(orb_pkt("recv", 10 ** 6, fw, None))
+        lines2 += ["query DispatchedCounts %s %s %s %s" % (hx("PROTOCOL_IBC"), hx("channel-0"), hx("PROTOCOL_HYPERLANE"), hx("7")),
+                   "query DispatchedCounts %s %s %s %s" % (hx("PROTOCOL_IBC"), hx("channel-0"), hx("PROTOCOL_HYPERLANE"), hx("0")), "export"]
+        f2 = {"msg": ["res", "st"], "recv": ["ack", "st"], "recvh": ["ack"], "query": ["res", "out", "next", "total"], "export": ["st"]}
         return [Stream("S1-identifiers", lines, fields={"pure": ["_"]}, oracle=c20_oracle),
                 Stream("S3-identifier-in-use", lines2, fields=f2, oracle=pause_oracle)]
 
@@ -676,6 +694,16 @@ def large_ledger_lines(r):
     return lines
 
 
+def everything_paused_lines():
+    """everything that can be paused is paused: the export of an unchanged state, and every listing, is the same every time, before and
+    after a restart"""
+    return ["setup -"] + [msg_line("PauseAction", AUTHORITY, hx(a)) for a in reversed(ACTION_NAMES)] + \
+        [msg_line("PauseProtocol", AUTHORITY, hx(p_)) for p_ in reversed(PROTO_NAMES)] + \
+        [msg_line("PauseCrossChains", AUTHORITY, hx("PROTOCOL_CCTP"), hx("7"), hx("10"), hx("1"), hx("0")),
+         msg_line("PauseCrossChains", AUTHORITY, hx("PROTOCOL_INTERNAL"), hx("noble")), msg_line("PauseCrossChains", AUTHORITY, hx("PROTOCOL_IBC"), hx("channel-1"), hx("channel-0"))] + \
+        ["export"] * 12 + ["query PausedActions", "query PausedProtocols"] * 6 + ["reimport"] + ["export"] * 8 + ["query PausedActions", "query PausedProtocols"] * 4
+
+
 def stats_limit_lines(toks):
     """a chain started from a genesis whose totals sit at the limits of their types: the statistics update is refused (and
     swallowed); the transfer itself must go through completely — fees paid, coin forwarded, nothing left behind"""
@@ -839,6 +867,7 @@ def model_branch_lines(toks):
         orb_pkt("recv", 10 ** 6, hyp_fwd(tok, domain=1, meta="zz")), orb_pkt("recv", 10 ** 6, hyp_fwd(tok, domain=1, meta="0xzz")),
         orb_pkt("recv", 10 ** 6, hyp_fwd(tok, domain=1, meta="0xabc")), orb_pkt("recv", 10 ** 6, hyp_fwd(tok, domain=1, meta="0xab")),
         orb_pkt("recv", 10 ** 6, hyp_fwd(b"\x0e" * 32, domain=1)),                                       # unknown warp token
+    ] + [orb_pkt("recv", 10 ** 6, hyp_fwd(tok, domain=1, meta=m_)) for m_ in ("0", "x", " ", "0X", "0Xab", "0xAB", "é", "0", "00", "0x0", "x0", "\u00000x", "0x" + "ab" * 300)] + [
         orb_pkt("recv", 10 ** 6, hyp_fwd(tok, domain=1, gas="1" + "0" * 80)),                            # math.Int beyond 256 bits
         orb_pkt("recv", big, int_fwd(U[1]), [fee_action([(U[2], "b", 10000)])], denom="uother"),         # amount * bps overflows 2^256
         # decoder corners
@@ -1883,6 +1912,7 @@ class C08(Base):
             out.append(Stream("S3-pause-history-%d" % h, lines, fields=f, oracle=pause_oracle))
         _, toks = scen.base_setup()
         out.append(Stream("S3-dropped-branches", dry_lines(Rng(seed * 1000 + 108), toks, self.n(tier, 80, 300))))
+        out.append(Stream("S3-everything-paused-repeated-exports", everything_paused_lines()))
         return out
 
 
@@ -2812,7 +2842,17 @@ class C15(Base):
         rt, expect = c15_roundtrip_build(r.fork(2), self.n(tier, 120, 1200), toks)
         pl, groups = c15_purity_lines(r.fork(3), toks, 16)
         f = {"pure": ["_"]}
+        # one parser for the whole life of a node: every memo again, in another order, each one twice, between memos with other root keys
+        s1l = []
+        pool = [l[len("pure parse "):] for l in s1 if l.startswith("pure parse ")]
+        other_roots = [hx(x) for x in ("{\"forward\":{\"receiver\":\"x\"}}", "{\"wasm\":{}}", "{\"note\":\"thanks\"}", "{\"orbiter\":{},\"a\":1}", "{\"b\":2,\"orbiter\":null}", "{}", "[1]", "x")]
+        rr = r.fork(9)
+        for m in rr.shuffle(pool)[:300] + rr.shuffle(pool)[:300]:
+            s1l.append("pure parsel " + m)
+            if rr.chance(1, 5):
+                s1l.append("pure parsel " + rr.choice(other_roots))
         return [Stream("S1-acceptance", s1, fields=f, oracle=c15_accept_oracle),
+                Stream("S1-one-parser-many-memos", s1l, fields=f),
                 Stream("S1-marshal-parse-roundtrip", rt, fields=f, oracle=c15_make_rt_oracle(expect), shrink=False),
                 Stream("S1-purity-16-fresh-decodes", pl, fields={}, oracle=c15_make_purity_oracle(groups), shrink=False)]
 
@@ -2984,13 +3024,7 @@ class C17(Base):
         out.append(Stream("S3-export-to-fresh-chain", ll, fields=f, oracle=c17_make_fresh_oracle(expect), shrink=False))
         out.append(Stream("S3-genesis-documents", c17_doc_lines(r.fork(2), self.n(tier, 120, 1500)), fields=f, oracle=c17_doc_oracle))
         out.append(Stream("S3-large-ledger", large_ledger_lines(Rng(seed * 1000 + 117))))
-        # everything that can be paused is paused: the export of an unchanged state is the same every time, before and after a restart
-        full = ["setup -"] + [msg_line("PauseAction", AUTHORITY, hx(a)) for a in reversed(ACTION_NAMES)] + \
-            [msg_line("PauseProtocol", AUTHORITY, hx(p_)) for p_ in reversed(PROTO_NAMES)] + \
-            [msg_line("PauseCrossChains", AUTHORITY, hx("PROTOCOL_CCTP"), hx("7"), hx("10"), hx("1"), hx("0")),
-             msg_line("PauseCrossChains", AUTHORITY, hx("PROTOCOL_INTERNAL"), hx("noble")), msg_line("PauseCrossChains", AUTHORITY, hx("PROTOCOL_IBC"), hx("channel-1"), hx("channel-0"))] + \
-            ["export"] * 12 + ["query PausedActions", "query PausedProtocols", "reimport"] + ["export"] * 8 + ["query PausedActions"] * 4
-        out.append(Stream("S3-everything-paused-repeated-exports", full, fields=f))
+        out.append(Stream("S3-everything-paused-repeated-exports", everything_paused_lines(), fields=f))
         return out
 
 
@@ -3023,6 +3057,21 @@ def c19_lines(r, n, toks):
             errs.append(orb_pkt("recv", 10 ** 6, fwd, [fee_action([(U[i], r.choice("ab"), 10 + 7 * j) for j, i in enumerate(arr)])]))
     # every spelling of the paths the parser's pre-checks walk (both oneof members, null elements)
     for m in scen._camel_combo_memos():
+        errs.append(pkt_line("recv", ftpd("transfer/channel-7/uusdc", 100000, ORB, m)))
+    # several defects in one memo, under different keys of the same object: which one is reported must not depend on anything but the memo
+    amb = {"recipient": U[0], "basis_points": {"value": 100}, "amount": {"value": "7"}}
+    multi = []
+    for k in range(6):
+        d_ = {"orbiter": {"pre_actions": [{"id": "ACTION_FEE", "attributes": {"@type": scen.FEE_URL, "fees_info": [amb]}}],
+                          "forwarding": {"protocol_id": "PROTOCOL_CCTP", "attributes": {"@type": scen.CCTP_URL, "destination_domain": 0, "mint_recipient": [None]}}}}
+        if k % 3 == 1:
+            d_["orbiter"]["zzz"] = [None]
+            d_["orbiter"]["aaa"] = {"amount": 1, "basisPoints": 2}
+        if k % 3 == 2:
+            d_["orbiter"]["forwarding"]["attributes"]["destination_caller"] = [1, None]
+            d_["orbiter"]["forwarding"]["unknown_field"] = 1
+        multi.append(_json.dumps(d_, separators=(",", ":")))
+    for m in multi * 3:
         errs.append(pkt_line("recv", ftpd("transfer/channel-7/uusdc", 100000, ORB, m)))
     # a fee computation that fails half way (the running total overflows after a valid entry), then ordinary fee payments: nothing of the
     # failed computation may show up later
@@ -3121,4 +3170,5 @@ class C19(Base):
                               note="%d processes" % self.n(tier, 3, 10)))
             out.append(Stream("S3-model-agreement-%d" % h, lines[:-6], fields={"recv": ["ack", "src", "bal", "mv", "st"], "msg": ["res", "st"], "query": ["res", "out"], "export": ["st"]}))
         out.append(Stream("S3-dropped-branches", dry_lines(Rng(seed * 1000 + 119), toks, self.n(tier, 80, 300))))
+        out.append(Stream("S3-everything-paused-repeated-exports", everything_paused_lines()))
         return out
